@@ -3,6 +3,7 @@
 import itertools
 
 import lib
+from props import C08 as P
 from props import C12 as B
 
 ID = "C13"
@@ -29,7 +30,21 @@ THEOREMS = [
     "Ural.Lru.clean_lruStems",
     "Ural.Props.C12.stems_wellformed",
     "Ural.Props.C12.portSplit_spec",
+    # suffix-aware forward law with suffix_trie.py inside (Props/C13Psl.lean): nothing assumed about split_suffix
+    "Ural.Psl.pslLen_subdomain",
+    "Ural.Props.C13.hostLen_subdomain",
+    "Ural.Props.C13.pslSplit_spec",
+    "Ural.Props.C13.pslSplitT_eq_split",
+    "Ural.Props.C13.splitLaw_psl",
+    "Ural.Props.C13.sameSuffixSplit_of_outside",
+    "Ural.Props.C13.stems_prefix_of_under_sub",
+    "Ural.Props.C13.stems_prefix_of_under_psl",
+    "Ural.Props.C13.lru_prefix_of_under_psl",
+    "Ural.Props.C13.lru_prefix_of_under_psl_string",
+    "Ural.Props.C13.kf_inside_suffix_psl",
+    "Ural.Props.C08.walk_eq_psl",
 ]
+EXTRA_IMPORTS = ["UralModel.Props.C13Psl"]
 TABLE_OBLIGATIONS = [
     "Ural.Props.C12.port_splitter_pattern",
     "Ural.Props.C12.serialized_lru_splitter_pattern",
@@ -154,6 +169,108 @@ CORPUS = [
 ]
 
 
+# --------------------------------------------------------------------------------------
+# host families derived from the regenerated public suffix list (every exception rule, every
+# wildcard rule, a sample of the plain rules): ancestors and non-ancestors around each rule
+# --------------------------------------------------------------------------------------
+FRESH = "zq"  # a label that starts no rule of the list below any parent used here
+PLAIN_ALWAYS = ["com", "co.uk", "github.io", "fr", "blogspot.com.au", "s3.amazonaws.com"]
+
+
+def _suffixes(labels):
+    return [".".join(labels[i:]) for i in range(len(labels) - 1, 0, -1)]
+
+
+def _dedup(xs):
+    out = []
+    for x in xs:
+        if x and x not in out:
+            out.append(x)
+    return out
+
+
+def exception_family(rule, idx):
+    """!e.par : the ancestors of par, par (the wildcard parent), the excepted host e.par, a child, a
+    grandchild, an upper-case spelling of the child, a sibling s.par under the wildcard (a public suffix
+    itself), a child and a grandchild of the sibling, the other labels that continue par in some rule"""
+    labels = rule[1:].split(".")
+    e, par = labels[0], ".".join(labels[1:])
+    exc = e + "." + par
+    sib = FRESH + "." + par
+    hosts = _suffixes(labels[1:]) + [par, exc, "www." + exc, "x.www." + exc, "WWW." + exc.title(), sib, "a." + sib, "b.a." + sib]
+    for k in sorted(idx.kids.get(tuple(labels[1:]), ()))[:4]:
+        if k not in ("*", e) and not k.startswith("!"):
+            hosts += [k + "." + par, "a." + k + "." + par]
+    return _dedup(hosts)
+
+
+def wildcard_family(rule, idx):
+    """*.par : the ancestors of par, par, a fresh instance s.par (a public suffix), a child (the
+    registrable domain), a grandchild; every label that continues par in another rule (explicit sibling
+    of the wildcard, excepted label) with a child"""
+    labels = rule.split(".")
+    inst = [FRESH if l == "*" else l for l in labels]
+    par = ".".join(inst[1:])
+    hosts = _suffixes(inst[1:]) + [par, ".".join(inst), "a." + ".".join(inst), "b.a." + ".".join(inst)]
+    for k in sorted(idx.kids.get(tuple(labels[1:]), ()))[:4]:
+        if k != "*":
+            k = k.lstrip("!")
+            hosts += [k + "." + par, "a." + k + "." + par]
+    return _dedup(hosts)
+
+
+def plain_family(rule):
+    """r : its ancestors (suffixes inside the public suffix), r, a domain, a subdomain, a sub-subdomain"""
+    labels = rule.split(".")
+    return _dedup(_suffixes(labels) + [rule, "a." + rule, "b.a." + rule, "c.b.a." + rule])
+
+
+_psl_memo = {}
+
+
+def psl_families(tier):
+    """[(kind, rule, hosts)] — every exception rule, every wildcard rule, a deterministic sample of the
+    plain ASCII rules (every k-th, k from the tier, multi-label rules first) plus a few fixed ones"""
+    if tier in _psl_memo:
+        return _psl_memo[tier]
+    t = P.T()
+    rules, idx = t["rules"], t["index"]
+    fams = []
+    for r in rules:
+        if r.startswith("!") and r.isascii():
+            fams.append(("exc", r, exception_family(r, idx)))
+    for r in rules:
+        if "*" in r and not r.startswith("!") and r.isascii():
+            fams.append(("wild", r, wildcard_family(r, idx)))
+    # (the bundled list has a line with a trailing dot, `xn--4dbgdty6c.xn--4dbrk0ce.`: no hostname can match it,
+    # and a host spelled with a trailing dot is outside the suffix-aware theorems — dnsName)
+    plain = [r for r in rules if r.isascii() and "*" not in r and not r.startswith("!") and "" not in r.split(".")]
+    multi = [r for r in plain if "." in r]
+    step_m, step_s = (60, 200) if tier == "quick" else (6, 20)
+    picked = [r for r in PLAIN_ALWAYS if r in plain] + multi[::step_m] + [r for r in plain if "." not in r][::step_s]
+    for r in _dedup(picked):
+        fams.append(("plain", r, plain_family(r)))
+    _psl_memo[tier] = fams
+    return fams
+
+
+def psl_cases(tier):
+    """one case per (family, u in family, mode): u bare (so that subdomains can lie under it) against the
+    whole family, each host bare and with a path + query"""
+    for kind, rule, hosts in psl_families(tier):
+        vs = ["http://" + h for h in hosts] + ["http://" + h + "/a?q=1" for h in hosts]
+        for sa in (True, False):
+            for h in hosts:
+                yield {"u": "http://" + h, "vs": vs, "sa": sa, "psl": kind, "rule": rule}
+
+
+def psl_urls(tier):
+    for kind, rule, hosts in psl_families(tier):
+        for h in hosts:
+            yield "http://" + h
+            yield "http://" + h + "/a?q=1"
+
+
 def universe_url(rng):
     return rng.choice(SCHEMES) + "://" + rng.choice(HOSTS) + rng.choice(PORTS) + rng.choice(PATHS) + rng.choice(EXTRAS)
 
@@ -176,10 +293,18 @@ def near(rng, s, h, p, path, extra):
     return s + "://" + auth + h2 + p + path2 + extra2
 
 
-def universe_urls():
-    """every URL a pair of the stream can be made of: corpus, mini universe, the 7,600-URL universe,
-    and the userinfo variant `near` draws"""
+def universe_urls(tier="quick"):
+    """every URL a pair of the stream can be made of: corpus, the hosts of the public-suffix-list
+    families (exception families; the wildcard and the sampled plain ones too in the thorough tier), mini
+    universe, the 7,600-URL universe, and the userinfo variant `near` draws"""
     seen = set()
+    for kind, rule, hosts in psl_families(tier):
+        if kind == "exc" or tier != "quick":
+            for h in hosts:
+                x = "http://" + h
+                if x not in seen:
+                    seen.add(x)
+                    yield x
     for c in CORPUS:
         for x in [c["u"]] + list(c["vs"]):
             if x not in seen:
@@ -203,11 +328,16 @@ def universe_urls():
 
 def cases(rng, tier):
     for c in CORPUS:
-        yield dict(c)
+        # the corpus goes through the model with its own public-suffix split (op lru_pairs_psl)
+        yield dict(c, psl="corpus")
+    # host families around every exception / wildcard rule and a sample of the plain rules of the
+    # regenerated list, both modes; the model computes the split itself from the list
+    for c in psl_cases(tier):
+        yield c
     # string-level tie: the model's own parser (+ lru_stems / url_to_lru as functions of the string)
     # against CPython / ural on every URL of the universe
     batch = []
-    for x in universe_urls():
+    for x in universe_urls(tier):
         batch.append(x)
         if len(batch) == 40:
             yield {"k": "parse", "urls": batch}
@@ -310,6 +440,10 @@ def _parse_plan(case):
 
 
 def canon(op, out):
+    if op.get("f") == "lru_pairs_psl" and isinstance(out, dict) and "rows" in out:
+        # `outside` is compared on DNS names only (the theorem uses it there; elsewhere the two notions of
+        # "special host" — is_special_host on .hostname vs the oracle's narrow one — need not agree)
+        return {"u_split": out.get("u_split"), "rows": [r[:8] + [bool(r[8]) and bool(r[9])] + r[9:] for r in out["rows"]]}
     return B.canon(op, out)
 
 
@@ -324,7 +458,11 @@ def ops(case):
         pv = B.cparse(v)
         if pv is None:
             return []
-        vs.append(B.parts_json(pv[0], pv[1]))
+        vs.append(B.parts_json(pv[0], None if case.get("psl") else pv[1]))
+    if case.get("psl"):
+        # no answer of the real split_suffix is shipped: the model splits with its own trie, built from
+        # the regenerated list (the file is content-addressed and memoised by the driver)
+        return [{"f": "lru_pairs_psl", "rules_file": P.T()["path"], "sa": case["sa"], "u": B.parts_json(pu[0], None), "vs": vs}]
     return [{"f": "lru_pairs", "sa": case["sa"], "u": B.parts_json(pu[0], pu[1]), "vs": vs}]
 
 
@@ -339,20 +477,29 @@ def impl(case):
     su, cu, lu, lcu = stems_of(case["u"], sa)
     out = []
     hu = spec_host_port(A[1])[0]
+    psl = bool(case.get("psl"))
     for v in case["vs"]:
-        V = B.cparse(v)[0]
+        pv = B.cparse(v)
+        V = pv[0]
+        hv = spec_host_port(V[1])[0]
         sv, cv, lv, lcv = stems_of(v, sa)
-        out.append(
-            [
-                under_by(ident, A, V),
-                under_by(B.ascii_lower, A, V),
-                is_prefix(cu, cv),
-                is_prefix(su, sv),
-                lv.startswith(lu),
-                lcv.startswith(lcu),
-                label_host(hu) and label_host(spec_host_port(V[1])[0]),
-            ]
-        )
+        row = [
+            under_by(ident, A, V),
+            under_by(B.ascii_lower, A, V),
+            is_prefix(cu, cv),
+            is_prefix(su, sv),
+            lv.startswith(lu),
+            lcv.startswith(lcu),
+            label_host(hu) and label_host(hv),
+        ]
+        if psl:
+            # hypotheses of stems_prefix_of_under_psl, read independently from the regenerated list, and
+            # the answer of the REAL split_suffix for v's host (the model computed its own)
+            dns = dns_name(hu) and dns_name(hv)
+            row += [list_same_suffix(hu, hv), dns and list_outside(hu, hv), dns, host_split(pv)]
+        out.append(row)
+    if psl:
+        return [{"u_split": host_split(pu), "rows": out}]
     return [out]
 
 
@@ -373,13 +520,62 @@ def split_law_ok(pr):
     return (s if d == "" else d + "." + s) == B.ascii_lower(spec_host_port(A[1])[0])
 
 
-def same_suffix_split(su, sv):
-    if su is None or sv is None:
-        return su is None and sv is None
-    return su[1] == sv[1]
+# --------------------------------------------------------------------------------------
+# the public suffix of a host according to the LIST (ural.tld_data, regenerated), by a plain scan of
+# the rules (harness/props/C08.py: psl_len — no trie, no ural function): what delimits the region of
+# the known finding KF-C13-1.  It used to be read off the answers of the real split_suffix, so a
+# split_suffix that mis-splits a subdomain moved the pair into the excluded region (seed C13-4).
+# --------------------------------------------------------------------------------------
+_list_memo = {}
 
 
-KF_MARK = "[ancestor inside the public suffix: the two hosts do not have the same split_suffix]"
+def list_split(host):
+    """None, or (number of labels of the host, domain, public suffix) by the publicsuffix.org algorithm
+    over the regenerated rule list; a bracketed literal / special host / empty host has none"""
+    r = _list_memo.get(host, 0)
+    if r != 0:
+        return r
+    if len(_list_memo) > 100000:
+        _list_memo.clear()
+    r = None
+    if host and not host.startswith("[") and not P.oracle_special(host):
+        labels = B.ascii_lower(host).rstrip(".").split(".")
+        n = P.T()["index"].len(labels)
+        if n:
+            r = (len(labels), ".".join(labels[: len(labels) - n]), ".".join(labels[len(labels) - n :]))
+    _list_memo[host] = r
+    return r
+
+
+def list_same_suffix(hu, hv):
+    """both hosts have the same public suffix by the list, or none has one"""
+    a, b = list_split(hu), list_split(hv)
+    if a is None or b is None:
+        return a is None and b is None
+    return a[2] == b[2]
+
+
+def list_outside(hu, hv):
+    """u's host lies outside v's public suffix (by the list): v's public suffix, if any, has fewer
+    labels than u's host; neither is a special host"""
+    if P.oracle_special(hu) or P.oracle_special(hv) or hu.startswith("[") or hv.startswith("["):
+        return False
+    b = list_split(hv)
+    nu = len(B.ascii_lower(hu).rstrip(".").split("."))
+    return b is None or len(b[2].split(".")) < nu
+
+
+def dns_name(h):
+    return not any(c in h for c in ":[]%") and not h.startswith(".") and not h.endswith(".")
+
+
+def forward_demanded(hu, hv):
+    """suffix-aware mode: is the pair outside the region of KF-C13-1 ("the ancestor lies inside the
+    public suffix of the descendant and the two public suffixes differ")?  Decided from the list."""
+    return hu == hv or list_same_suffix(hu, hv) or (dns_name(hu) and dns_name(hv) and list_outside(hu, hv))
+
+
+KF_MARK = "[ancestor inside the public suffix: by the public suffix list the two hosts do not have the same suffix]"
 
 
 def pair_verdict(case, v):
@@ -412,7 +608,7 @@ def pair_verdict(case, v):
     hu, hv = spec_host_port(A[1])[0], spec_host_port(V[1])[0]
     # forward
     if under_by(ident, A, V) and (hu == hv or (label_host(hu) and label_host(hv))):
-        if sa and not same_suffix_split(host_split(pu), host_split(pv)):
+        if sa and not forward_demanded(hu, hv):
             if case.get("strict") and not pre:
                 return "forward: %s lies under %s but stems %r are not a prefix of %r %s" % (v, case["u"], cu, cv, KF_MARK)
         elif not pre:
@@ -456,7 +652,7 @@ def _pair_stats_(case):
     if pu is None:
         return None
     A, spu = pu
-    st = {"pairs": 0, "under": 0, "strict-under": 0, "prefix": 0, "not-under": 0, "kf": 0, "subdomain": 0}
+    st = {"pairs": 0, "under": 0, "strict-under": 0, "prefix": 0, "not-under": 0, "kf": 0, "subdomain": 0, "sub-sa": 0}
     cu = stems_of(case["u"], case["sa"])[1]
     for v in case["vs"]:
         pv = B.cparse(v)
@@ -471,8 +667,10 @@ def _pair_stats_(case):
                 st["strict-under"] += 1
             if spec_host_port(A[1])[0] != spec_host_port(V[1])[0]:
                 st["subdomain"] += 1
-            if case["sa"] and not same_suffix_split(host_split(pu), host_split(pv)):
+            if case["sa"] and not forward_demanded(spec_host_port(A[1])[0], spec_host_port(V[1])[0]):
                 st["kf"] += 1
+            elif case["sa"] and spec_host_port(A[1])[0] != spec_host_port(V[1])[0]:
+                st["sub-sa"] += 1
         else:
             st["not-under"] += 1
         if is_prefix(cu, stems_of(v, case["sa"])[1]):
@@ -499,6 +697,8 @@ def classify(case):
         return labs
     st = _pair_stats(case)
     labs = ["sa=%d" % case["sa"]]
+    if case.get("psl"):
+        labs.append("kind=psl:" + case["psl"])
     if st is None:
         return labs + ["urlsplit-ValueError"]
     labs += ["pairs"] * st["pairs"]
@@ -508,4 +708,5 @@ def classify(case):
     labs += ["pairs-not-under"] * st["not-under"]
     labs += ["pairs-stem-prefix"] * st["prefix"]
     labs += ["pairs-kf-region"] * st["kf"]
+    labs += ["pairs-under-subdomain-sa-demanded"] * st["sub-sa"]
     return labs
